@@ -12,7 +12,7 @@ def wp(ps):
 
 class C13(Prop):
     pid = "C13"
-    generators = ["confignext"]
+    generators = ["confignext", "changeable"]
     coq_targets = ["Run/EvalC13.vo"]
     bins = ["h_fs"]
     trusted = [
@@ -282,7 +282,75 @@ class C13(Prop):
                 c.nontrivial.add(json.dumps(case, sort_keys=True))
             if len(c.samples) < 4 and len(case["changes"]) >= 3:
                 c.samples.append({"case": case, "impl_calls": o["calls"], "impl_final": got})
+        changeable_check(c, seed, 60 if tier == "quick" else 600)
         return c
+
+
+def changeable_check(c, seed, n):
+    """scripts of replace / clone / call (the called function replacing handlers -- its own too --, cloning and calling in turn, nested up
+    to three deep) run against the real ChangeableFn and against Fs/Changeable.v in the modes translated from changeable.rs"""
+    r = rng(seed, "changeable")
+    cases = []
+    for i in range(n):
+        known, nf, nh = [0], [1], [1]
+
+        def gen_ops(depth, k):
+            ops = []
+            for _ in range(k):
+                x = r.random()
+                if x < 0.35:
+                    ops.append({"r": [r.choice(known), nf[0]]})
+                    nf[0] += 1
+                elif x < 0.5:
+                    ops.append({"c": [r.choice(known), nh[0]]})
+                    known.append(nh[0])
+                    nh[0] += 1
+                elif x < 0.53:
+                    ops.append({"call": [99, []]})              # a handle that does not exist
+                else:
+                    ops.append({"call": [r.choice(known), gen_ops(depth + 1, r.randint(0, 3)) if depth < 3 else []]})
+            return ops
+        cases.append({"id": i, "ops": gen_ops(0, r.randint(2, 7))})
+    # the two shapes the refutations are about, always
+    cases.append({"id": n, "ops": [{"call": [0, [{"r": [0, 1]}]]}, {"call": [0, []]}]})
+    cases.append({"id": n + 1, "ops": [{"c": [0, 7]}, {"r": [0, 1]}, {"call": [7, []]}, {"call": [0, [{"r": [7, 2]}, {"call": [0, []]}]]}, {"call": [7, []]}]})
+    d = scratch("c13ch")
+    write_jsonl(os.path.join(d, "cases.jsonl"), cases)
+    rc, obs, out = run_harness("h_fs", ["changeable", os.path.join(d, "cases.jsonl")], timeout=600)
+    if rc != 0 or len(obs) != len(cases):
+        c.errors.append(f"h_fs changeable failed rc={rc}: {out[-600:]}")
+        return
+
+    def term(ops):
+        out_ = []
+        for op in ops:
+            if "r" in op:
+                out_.append(f"Replace {op['r'][0]} {op['r'][1]}")
+            elif "c" in op:
+                out_.append(f"Clone {op['c'][0]} {op['c'][1]}")
+            else:
+                out_.append(f"Call {op['call'][0]} {term(op['call'][1])}")
+        return coq_list(out_)
+    res, err = coq_eval("c13ch", ["Fs.Changeable", "Run.EvalC13"], [f"(eval_changeable {term(cs_['ops'])})%N" for cs_ in cases])
+    if err:
+        c.errors.append("model evaluation failed: " + err[-800:])
+        return
+    for case, o, m in zip(cases, obs, res):
+        c.evaluations += 1
+        c.count("changeable script")
+        mres, mtr = m.split(" ", 1)
+        impl = o["res"] + " " + ("[]" if o["res"] == "badhandle" else "[" + ",".join(o["trace"]) + "]")
+        if impl == m:
+            c.validated += 1
+        else:
+            c.disagreements.append({"case": case, "impl": impl, "model": m, "what": "ChangeableFn: invocations (handle:function) of a script"})
+            if o["res"] == "deadlock":
+                c.failing.append({"case": case, "impl": impl, "clause": "C13_reconfig_never_deadlocks: a handler replaced from within a call dead-locked"})
+            elif mres == "done" and o["res"] == "done":
+                c.failing.append({"case": case, "impl": impl, "expected": m,
+                                  "clause": "C13_reconfig_from_within / C13_reconfig_reaches_clones: a call did not run the function installed when it started"})
+        if any("call" in op and op["call"][1] for op in case["ops"]):
+            c.nontrivial.add(json.dumps(case["ops"]))
 
 
 PROP = C13()
